@@ -116,6 +116,10 @@ def handleSpecial (stream : String) (args : List String) : String :=
     | some bs => showRes (runS (fun a => Ice.turnPacket a (known = "1")) bs)
         (fun r => match r with | [_, 2, len] => s!"fwd {len}" | _ => "nofwd")
     | none => "bad-hex"
+  | "tcp4571", [bl, hx] =>
+    match bl.toNat?, unhex hx with
+    | some bl, some bs => showRes (runB (Ice.tcp4571Recv bl) bs) toString
+    | _, _ => "bad-args"
   | "turntcp", [bl, hx] =>
     match bl.toNat?, unhex hx with
     | some bl, some bs => showRes (runB (Ice.turnTcpRecv bl) bs) toString
